@@ -64,6 +64,7 @@ impl Case {
             faults: self.faults.clone(),
             mount_boundary: false,
             entropy: 7,
+            umask: None,
         }
     }
     pub fn predict(&self) -> Result<Prediction, Harness> {
